@@ -575,6 +575,9 @@ def send_sym(sym, ad, k=0):
         tags.append(["36", str(ad.nout + 2)])
     elif t == "5":
         tags = [["58", "bye"]] if sym.get("text") else []
+    if sym.get("pdn"):
+        # an application message that itself carries PossDupFlag=N / OrigSendingTime (journaled as a new message)
+        tags = tags + [["43", "N"], ["122", "20221231-23:59:59.000"]]
     if sym.get("pd"):
         s = sym.get("seq", "below")
         sv = {"nout": ad.nout, "below": ad.nout - 1, "above": ad.nout + 3, "garbled": "xx"}.get(s, s)
